@@ -1,4 +1,5 @@
 pub mod evidence;
+pub mod hang;
 pub mod kf;
 pub mod node;
 pub mod rng;
